@@ -41,6 +41,31 @@ and every non-OK code. -/
 def FaultSafe {α : Type} (base : Req → Rsp) (p : Prog α) : Prop :=
   ∀ n k c, c ≠ 0 → Safe c (outcome p (pureDev base) n) (outcome p (faultDev base k c) n)
 
+/-! ### any fault set -/
+
+/-- Every injected code is a non-OK code. -/
+def NonZero (φ : Nat → Option Nat) : Prop := ∀ n c, φ n = some c → c ≠ 0
+
+/-- `c` is one of the injected codes. -/
+def Inj (φ : Nat → Option Nat) (c : Nat) : Prop := ∃ m, φ m = some c
+
+/-- `p` is safe against `base` under EVERY fault set `φ` admitted by `Φ` (any number of faults,
+any positions, any non-OK codes), from every starting position: the outcome is an error
+carrying one of the injected codes, RetryError, HpmError, or the fault-free outcome. -/
+def MultiSafeOn {α : Type} (Φ : (Nat → Option Nat) → Prop) (base : Req → Rsp) (p : Prog α) : Prop :=
+  ∀ φ, NonZero φ → Φ φ → ∀ n,
+    SafeAny (Inj φ) (outcome p (pureDev base) n) (outcome p (faultsDev base φ) n)
+
+/-- No restriction on the fault set. -/
+def AnyFaults : (Nat → Option Nat) → Prop := fun _ => True
+
+/-- At most `b` positions are answered with `code` (the positions are among `S`). -/
+def Few (code b : Nat) (φ : Nat → Option Nat) : Prop :=
+  ∃ S : List Nat, S.length ≤ b ∧ ∀ n, φ n = some code → n ∈ S
+
+/-- The fault set with the single fault `k ↦ c`. -/
+def single (k c : Nat) : Nat → Option Nat := fun n => if n = k then some c else none
+
 /-- Decidable equality of outcomes (core has none for `Except`). -/
 def resEq {α : Type} [DecidableEq α] : Res α → Res α → Bool
   | .ok a, .ok b => decide (a = b)
@@ -64,16 +89,28 @@ theorem safeB_iff {α : Type} [DecidableEq α] (c : Nat) (good bad : Res α) :
 The generated table (Gen/ApiShapes.lean) is re-derived from the source on every run; these
 lists are the expectation it is checked against in Props/C08.lean:
 every public operation that is `other` must be in `residue` (fail closed: a new unclassifiable
-operation breaks `residue_closed`), and the operations found straight-line checked / built
-from whitelisted handlers when the check was written must stay so. -/
+operation breaks `residue_closed`), the operations found straight-line checked / built
+from whitelisted handlers when the check was written must stay so, and every operation with
+handlers of its own must be one of `leafModels` (a new handler breaks `table_covered`). -/
 
-/-- close, get_device_sdr, device_sdr_entries, get_channel_authentication_capabilities,
-get_component_properties, get_device_sdr_list, get_repository_sdr, sdr_repository_entries,
-get_repository_sdr_list, is_ipmc_accessible, open, raw_command, set_led_state,
-wait_until_ipmb_is_accessible -/
-def residue : List Nat := [
-  318865860, 4167411021, 1141642064, 2096600255, 115355061, 1363320754, 3094962269, 4169115046,
-  2507408149, 1009781844, 2758837156, 4170075980, 2073270841, 551629936]
+/-- The two operations the pinned tree got wrong (DESIGN §2.4); were they to leave the grammar
+again they are covered by their as-shipped counter-example theorems:
+get_component_properties, get_channel_authentication_capabilities. -/
+def residue : List Nat := [115355061, 2096600255]
+
+/-- The operations with completion-code handlers of their own, and the model each one has
+(key, own handler kinds, model):
+0 readFru 1 andWait 2 uploadBinary 3 componentProps 4 getAndClear 5 selEntry 6 sdrChunk
+7 sdrData 8 clearLoop.
+activate_firmware_and_wait, finish_upload_and_wait, initiate_manual_rollback_and_wait,
+initiate_upgrade_action_and_wait, upload_binary, get_component_properties,
+get_and_clear_sel_entry, get_sel_entry, read_fru_data, get_sdr_chunk_helper (device / repository),
+get_sdr_data_helper (device / repository), _clear_repository (SDR / SEL) -/
+def leafModels : List (Nat × List Nat × Nat) := [
+  (3817294091, [1], 1), (1968242691, [1], 1), (2434229257, [1], 1), (2907939773, [1], 1),
+  (1270987197, [1], 2), (115355061, [2], 3), (735321242, [3], 4), (3339311673, [4], 5),
+  (2180544297, [0], 0), (1875472473, [5], 6), (1793278629, [5], 6), (1598866954, [6], 7),
+  (3887084370, [6], 7), (855676666, [7], 8), (2136410288, [7], 8)]
 
 def designChecked : List Nat := [
   4094109565, 1316515922, 2712792331, 815958396, 3092033106, 548722399, 3288865722, 473745030,
@@ -89,11 +126,12 @@ def designChecked : List Nat := [
   3746044308, 2994664770, 1635939302, 4247580690, 3088578901, 4160643067, 335691651, 2844707483,
   98878421, 752604909, 452265700, 1494657159, 3642380421, 2211128193, 1131210177, 593996978,
   4103209116, 2589790248, 3333938506, 216387910, 1963618893, 1841751004, 3547605706, 3858505695,
-  1298382634, 3219363475]
+  1298382634, 3219363475, 2073270841]
 
 def designLoop : List Nat := [
   3817294091, 754954297, 3047098186, 79719237, 1968242691, 3339311673, 735321242, 2180544297,
   369856706, 543404193, 3791578426, 2136162051, 2717124571, 3524668873, 3175920971, 3841687442,
-  2434229257, 2907939773, 1270987197, 940005453, 3916581213, 441237422, 506264201]
+  2434229257, 2907939773, 1270987197, 940005453, 3916581213, 441237422, 506264201,
+  4167411021, 1141642064, 1363320754, 3094962269, 4169115046, 2507408149, 115355061]
 
 end PyIpmi.Spec.FaultDevice
